@@ -373,7 +373,7 @@ with the cut not at a line end, plus each over-limit head; distinct by (case dig
     enums: &[],
     randoms: &[RandomDef {
         name: "heads",
-        cases: |t: Tier| t.pick(30_000, 600_000),
+        cases: |t: Tier| t.pick(30_000, 1_200_000),
         tape_len: 2_600,
         exec: None,
     }],
